@@ -34,7 +34,7 @@ def _flow(rng, **kw):
 
 def _surf(name, mesh, sym, rng, **kw):
     s = pipelines.aero_surface(name, mesh, sym, S_ref_type=str(rng.choice(["wetted", "projected"])),
-                               with_viscous=bool(rng.integers(2)), k_lam=float(rng.choice([0.0, 0.05, 0.4])),
+                               with_viscous=bool(rng.integers(2)), k_lam=float(rng.choice([0.0, 0.05, 0.4, 1.0])),
                                CL0=float(rng.uniform(0, 0.05)), CD0=float(rng.uniform(0, 0.02)))
     s.update(kw)
     return s
@@ -294,16 +294,21 @@ def c07_mirror(rng, tier):
 def c07_left_right(rng, tier):
     nx, ny = _sizes(rng, tier)
     left = _clean_half(rng, nx, ny)
+    ground = bool(rng.uniform() < 0.3)
+    off = (not ground) and bool(rng.uniform() < 0.35)
+    if off:
+        # root section off the symmetry plane and a non-straight quarter-chord line (twist), as produced by y-shear
+        left[:, :, 1] -= float(rng.uniform(0.2, 1.0))
+        left[:, :, 2] += np.linspace(0.0, 1.0, nx)[:, None] * np.linspace(0.3, -0.2, ny)[None, :]
     right = _mirror_mesh(left)
     flow = _flow(rng)
-    ground = bool(rng.uniform() < 0.3)
     kw = dict(groundplane=True) if ground else {}
     sl = [_surf("w", left, True, rng, **kw)]
     sr = [dict(sl[0], mesh=right)]
     o0 = pipelines.aero_outputs(pipelines.run_aero_point(sl, flow), sl)
     o1 = pipelines.aero_outputs(pipelines.run_aero_point(sr, flow), sr)
     out = []
-    case = dict(nx=nx, ny=ny, ground=ground, alpha=flow["alpha"])
+    case = dict(nx=nx, ny=ny, ground=ground, root_off_plane=off, alpha=flow["alpha"])
     f1 = o1["w"]["sec_forces"][:, ::-1, :] * np.array([1, -1, 1])
     if relerr(o0["w"]["sec_forces"], f1) > 1e-8:
         out.append(_fail("left-half and right-half models of the same wing give different (mirrored) forces", f1, o0["w"]["sec_forces"], **case))
@@ -409,7 +414,7 @@ def _states_forces(surfaces, flow, compressible, meshes=None):
 def c09_pg(rng, tier):
     surfaces = _aero_config(rng, tier, ns=int(rng.choice([1, 2])))
     anysym = any(s["symmetry"] for s in surfaces)
-    flow = _flow(rng, Mach_number=float(rng.uniform(0.0, 0.94)), alpha=float(rng.uniform(-15, 15)))
+    flow = _flow(rng, Mach_number=float(rng.choice([rng.uniform(0.0, 0.9), rng.uniform(0.9, 0.949)])), alpha=float(rng.uniform(-15, 15)))
     if not anysym:
         flow["beta"] = float(rng.uniform(-10, 10))
     M = flow["Mach_number"]; B = np.sqrt(1 - M * M)
@@ -445,7 +450,7 @@ def c09_mach0(rng, tier):
     if relerr(comp[0], inc[0]) > 1e-8:
         out.append(_fail("compressible and incompressible solvers differ at Mach 0", comp[0], inc[0], **case))
     # continuity in Mach: a 1e-6 step in M changes forces by O(1e-6)
-    M = float(rng.uniform(0.05, 0.94))
+    M = float(rng.choice([rng.uniform(0.05, 0.9), rng.uniform(0.9, 0.949)]))
     f1 = dict(flow); f1["Mach_number"] = M
     f2 = dict(flow); f2["Mach_number"] = M + 1e-6
     c1 = _states_forces(surfaces, f1, True)[0]; c2 = _states_forces(surfaces, f2, True)[0]
